@@ -7,6 +7,7 @@ import ShVerif.Proofs.C16d
   C16 — Brace expansion matches bash.  Property theorems.  A statement that is false of the model
   (hence of the Go code: the model is tied to it on every run) is kept as `def …_statement`, with
   a proved `…_partial` theorem, and a proved counter-example (`…_counterexample`).
+  `pinned_…` lemmas keep the witnesses of repaired defects (f5e7d25, bbca746, 9b7d1dc) in place.
 -/
 namespace ShVerif.C16
 
@@ -17,37 +18,22 @@ theorem split_render (w : Bytes) : render (splitBraces w).1 = w := split_render_
 
 /-! ## … and reports whether it found a brace expansion -/
 
-/-- The documented contract: the bool says whether the result contains a `BraceExp`. -/
-def split_reports_statement : Prop :=
-  ∀ w : Bytes, (splitBraces w).2 = true ↔ hasBrace (splitBraces w).1 = true
+/-- The documented contract, for every byte string: the bool says whether the result contains a
+    `BraceExp`, and a word without one is left untouched. -/
+theorem split_reports (w : Bytes) :
+    ((splitBraces w).2 = true ↔ hasBrace (splitBraces w).1 = true) ∧
+    ((splitBraces w).2 = false → (splitBraces w).1 = [.lit w]) := by
+  unfold splitBraces
+  split
+  · simp [hasBrace, Part.isLit]
+  · simp only
+    split
+    · rename_i hb; simp [hb]
+    · simp [hasBrace, Part.isLit]
 
-/-- What the code does: it reports whether the literal contains a `{`.  A reported `false` is
-    always right (and leaves the word untouched), a `BraceExp` is always reported; the contract
-    holds exactly when a word with `{` does produce a `BraceExp`. -/
-theorem split_reports_partial (w : Bytes) :
-    ((splitBraces w).2 = true ↔ cLB ∈ w) ∧
-    ((splitBraces w).2 = false → (splitBraces w).1 = [.lit w]) ∧
-    (hasBrace (splitBraces w).1 = true → (splitBraces w).2 = true) ∧
-    ((cLB ∈ w → hasBrace (splitBraces w).1 = true) →
-      ((splitBraces w).2 = true ↔ hasBrace (splitBraces w).1 = true)) := by
-  have key : (splitBraces w).2 = true ↔ cLB ∈ w := by
-    unfold splitBraces; split <;> simp_all
-  have h2 : (splitBraces w).2 = false → (splitBraces w).1 = [.lit w] := by
-    unfold splitBraces; split <;> simp_all
-  have h3 : hasBrace (splitBraces w).1 = true → (splitBraces w).2 = true := by
-    intro hb
-    cases hr : (splitBraces w).2 with
-    | true => rfl
-    | false => rw [h2 hr] at hb; simp [hasBrace, Part.isLit] at hb
-  exact ⟨key, h2, h3, fun h => ⟨fun ht => h (key.mp ht), h3⟩⟩
-
-/-- `a{b` is reported as containing a brace expansion although none results
-    (finding C16-reports-true-without-braceexp). -/
-theorem split_reports_counterexample : ¬ split_reports_statement := by
-  intro h
-  have := (h [97, 123, 98]).mp (by decide)
-  revert this
-  decide
+/-- `a{b` (finding C16-reports-true-without-braceexp, fixed by f5e7d25). -/
+theorem pinned_reports_a_lbrace_b : splitBraces [97, 123, 98] = ([.lit [97, 123, 98]], false) := by
+  rfl
 
 /-! ## Sequences -/
 
@@ -56,51 +42,29 @@ abbrev In64 (x : Int) : Prop := minI64 ≤ x ∧ x ≤ maxI64
 /-- The loop parameters `bracesSeqRec` computes for `{fr..to..inc}` (inc = 1 when absent). -/
 def mkSeq (fr to inc : Int) : SeqParams :=
   { chars := false, «from» := fr, to := to, width := 0,
-    incr := goIncr inc (decide (fr ≤ to)), upward := decide (fr ≤ to) }
+    step := goStep inc, upward := decide (fr ≤ to) }
 
 /-- A sequence `{fr..to[..inc]}` visits exactly the `⌊|to−fr|/|inc|⌋+1` values of the ideal
-    arithmetic progression, in order — for all Int64 endpoints and increments
-    (`k` bounds the number of iterations looked at). -/
-def seq_exact_statement : Prop :=
-  ∀ fr to inc : Int, In64 fr → In64 to → In64 inc →
-    ∀ k, seqVals (mkSeq fr to inc) k fr = (idealSeq fr to (idealStep inc)).take k
-
-/-- It holds whenever the Go arithmetic does not overflow: the increment is not −2^63 (whose
-    negation wraps) and the last element plus the step is still an Int64. -/
-theorem seq_exact_partial (fr to inc : Int) (hfr : In64 fr) (_hto : In64 to) (hinc : In64 inc)
-    (hmin : inc ≠ minI64) (hno : SeqNoOverflow fr to (idealStep inc)) (k : Nat) :
+    arithmetic progression, in order — for all Int64 endpoints and increments, including
+    increment −2^63 and ranges that end at the Int64 limits (`k` bounds the number of iterations
+    looked at). -/
+theorem seq_exact (fr to inc : Int) (hfr : In64 fr) (hto : In64 to) (hinc : In64 inc) (k : Nat) :
     seqVals (mkSeq fr to inc) k fr = (idealSeq fr to (idealStep inc)).take k :=
-  seq_exact_core (mkSeq fr to inc) fr to inc hfr.1 hfr.2
-    (by have := hinc.1; omega) hinc.2 rfl rfl rfl hno k
+  seq_exact_core (mkSeq fr to inc) fr to inc hfr.1 hfr.2 hto.1 hto.2 hinc.1 hinc.2 rfl rfl rfl k
 
-/-- `{9223372036854775806..9223372036854775807}`: after the two elements `n += 1` wraps to −2^63
-    and the loop goes on (finding C16-seq-int64-overflow). -/
-theorem seq_exact_counterexample : ¬ seq_exact_statement := by
-  intro h
-  have := h 9223372036854775806 9223372036854775807 1 (by decide) (by decide) (by decide) 3
-  revert this
-  decide
-
-/-- The same with an explicit increment of −2^63, whose absolute value does not exist in Int64:
-    `{0..1..-9223372036854775808}` alternates between 0 and −2^63. -/
-theorem seq_exact_counterexample_min_incr :
-    seqVals (mkSeq 0 1 minI64) 4 0 = [0, minI64, 0, minI64] ∧
-    idealSeq 0 1 (idealStep minI64) = [0] := by
-  decide
-
-/-- Non-vacuity of `seq_exact_partial`: `{-3..10..4}` and a descending sequence at the lower
-    limit satisfy its hypotheses. -/
-example : SeqNoOverflow (-3) 10 (idealStep 4) ∧ seqVals (mkSeq (-3) 10 4) 9 (-3) = [-3, 1, 5, 9] := by
-  decide
-example : SeqNoOverflow (minI64 + 6) (minI64 + 2) (idealStep (-2)) ∧
-    seqVals (mkSeq (minI64 + 6) (minI64 + 2) (-2)) 9 (minI64 + 6) =
-      [minI64 + 6, minI64 + 4, minI64 + 2] := by
+/-- `{9223372036854775806..9223372036854775807}` and `{0..1..-9223372036854775808}`
+    (finding C16-seq-int64-overflow, fixed by bbca746). -/
+theorem pinned_seq_at_int64_limit :
+    seqVals (mkSeq 9223372036854775806 9223372036854775807 1) 5 9223372036854775806 =
+      [9223372036854775806, 9223372036854775807] ∧
+    seqVals (mkSeq 0 1 minI64) 5 0 = [0] ∧
+    seqVals (mkSeq (minI64 + 1) minI64 (-2)) 5 (minI64 + 1) = [minI64 + 1] := by
   decide
 
 /-! ## Expansion of a split word: no panic, count, limit -/
 
 /-- `bracesSeqRec` never panics (index out of range on `br.Elems[1]`, `fromLit[0]`) on what
-    `SplitBraces` produces — for every byte string, overflow or not. -/
+    `SplitBraces` produces — for every byte string. -/
 theorem expand_no_panic (w : Bytes) : expand (splitBraces w).1 ≠ .error .panic := by
   obtain ⟨r, hr⟩ := bracesRec_total (bracesIn (splitBraces w).1 + 1) (limit + 1) (splitBraces w).1
     (wf_split w) (by omega)
@@ -112,12 +76,12 @@ theorem expand_no_panic (w : Bytes) : expand (splitBraces w).1 ≠ .error .panic
     (`count`), a sequence counting `⌊|to−from|/step⌋+1`. -/
 theorem count_denot (t : Word) : (denot t).length = count t := denot_length t
 
-/-- The expansion of a well-formed tree whose sequences do not overflow is its denotation
-    (alternatives in order, sequences as ideal progressions, left-major products), or the limit
-    error exactly when there are more than 16384 results. -/
-theorem expand_spec (t : Word) (hwf : wf t = true) (hno : noOv t = true) :
+/-- The expansion of a well-formed tree is its denotation (alternatives in order, sequences as
+    ideal progressions, left-major products), or the limit error exactly when there are more than
+    16384 results. -/
+theorem expand_spec (t : Word) (hwf : wf t = true) :
     expand t = if count t > limit then .error .limit else .ok (denot t) := by
-  obtain ⟨r, hr, hrr⟩ := bracesRec_spec (bracesIn t + 1) (limit + 1) t hwf hno (by omega) (by omega)
+  obtain ⟨r, hr, hrr⟩ := bracesRec_spec (bracesIn t + 1) (limit + 1) t hwf (by omega) (by omega)
   have hlen : r.length = min (limit + 1) (count t) := by
     have := congrArg List.length hrr
     simpa [List.length_take, denot_length] using this
@@ -133,44 +97,46 @@ theorem expand_spec (t : Word) (hwf : wf t = true) (hno : noOv t = true) :
     apply List.take_of_length_le
     rw [denot_length]; omega
 
-/-- `count`: when the expansion succeeds it has exactly `count` elements. -/
-theorem count_results (w : Bytes) (hno : noOv (splitBraces w).1 = true) (rs : List Bytes)
+/-- `count`: when the expansion succeeds it has exactly `count` elements — for every byte string. -/
+theorem count_results (w : Bytes) (rs : List Bytes)
     (h : expand (splitBraces w).1 = .ok rs) : rs.length = count (splitBraces w).1 := by
-  rw [expand_spec _ (wf_split w) hno] at h
+  rw [expand_spec _ (wf_split w)] at h
   split at h
   · cases h
   · cases h; exact denot_length _
 
-/-- The documented limit: an error **iff** the list would exceed 16384 elements. -/
-def limit_iff_statement : Prop :=
-  ∀ w : Bytes, isLimitErr (expand (splitBraces w).1) = true ↔ count (splitBraces w).1 > limit
-
-/-- It holds for every word none of whose sequences overflows Int64 in the Go loop. -/
-theorem limit_iff_partial (w : Bytes) (hno : noOv (splitBraces w).1 = true) :
+/-- The documented limit, for every byte string: an error **iff** the list would exceed 16384
+    elements. -/
+theorem limit_iff (w : Bytes) :
     isLimitErr (expand (splitBraces w).1) = true ↔ count (splitBraces w).1 > limit := by
-  rw [expand_spec _ (wf_split w) hno]
+  rw [expand_spec _ (wf_split w)]
   split <;> simp_all [isLimitErr]
 
-/-- `{9223372036854775806..9223372036854775807}` has 2 elements but ends in the limit error
-    (finding C16-seq-int64-overflow). -/
+/-- `{9223372036854775806..9223372036854775807}` (finding C16-seq-int64-overflow). -/
 def overflowWitness : Bytes :=
   [123, 57, 50, 50, 51, 51, 55, 50, 48, 51, 54, 56, 53, 52, 55, 55, 53, 56, 48, 54, 46, 46,
    57, 50, 50, 51, 51, 55, 50, 48, 51, 54, 56, 53, 52, 55, 55, 53, 56, 48, 55, 125]
 
-/-- The expansion of the overflow witness is the limit error. -/
-theorem overflow_witness_limit : isLimitErr (expand (splitBraces overflowWitness).1) = true := by
-  have htree : (splitBraces overflowWitness).1 =
-      [.brace true [[.lit (overflowWitness.drop 1 |>.take 19)], [.lit (overflowWitness.drop 22 |>.take 19)]],
-       .lit []] := by rfl
-  rw [htree]
-  apply expand_single_seq_limit _ _ (mkSeq 9223372036854775806 9223372036854775807 1) (by rfl)
-  -- two values, then the wrapped −2^63 and the 16383 values after it
-  exact seqVals_overflow_len _ rfl rfl rfl (limit - 1) (by decide)
+/-- It no longer ends in the limit error: two words. -/
+theorem pinned_overflow_witness :
+    isLimitErr (expand (splitBraces overflowWitness).1) = false ∧
+    count (splitBraces overflowWitness).1 = 2 := by
+  have hc : count (splitBraces overflowWitness).1 = 2 := by decide +kernel
+  refine ⟨?_, hc⟩
+  have := limit_iff overflowWitness
+  cases h : isLimitErr (expand (splitBraces overflowWitness).1) with
+  | false => rfl
+  | true =>
+    have := this.mp h
+    rw [hc] at this
+    exact absurd this (by decide)
 
-theorem limit_iff_counterexample : ¬ limit_iff_statement := by
-  intro h
-  have hcount : ¬ count (splitBraces overflowWitness).1 > limit := by decide
-  exact hcount ((h overflowWitness).mp overflow_witness_limit)
+/-- `{,x}` (finding C16-empty-word-becomes-field, fixed by 9b7d1dc): no empty trailing `Lit`, the
+    empty alternative is a word without parts, and `Fields` yields the single field `x`. -/
+theorem pinned_empty_alternative :
+    (splitBraces [123, 44, 120, 125]).1 = [.brace false [[], [.lit [120]]]] ∧
+    fields [123, 44, 120, 125] = .ok [[120]] := by
+  constructor <;> rfl
 
 /-! ## Equivalence with bash -/
 
@@ -178,11 +144,11 @@ theorem limit_iff_counterexample : ¬ limit_iff_statement := by
     groups with ≥ 2 alternatives, valid sequences, literals of ordinary bytes): splitting the
     *text* of `t` and expanding gives the denotation of `t` — alternatives in order, ideal
     sequences, left-major products — or the limit error iff it has more than 16384 elements. -/
-theorem expand_canon (t : Word) (hc : canon t = true) (hno : noOv t = true) :
+theorem expand_canon (t : Word) (hc : canon t = true) :
     expand (splitBraces (render t)).1 =
       if count t > limit then .error .limit else .ok (denot t) := by
-  obtain ⟨hd, hn⟩ := split_canon_denot t hc
-  rw [expand_spec _ (wf_split _) (by rw [hn]; exact hno), hd]
+  have hd := split_canon_denot t hc
+  rw [expand_spec _ (wf_split _), hd]
   have : count (splitBraces (render t)).1 = count t := by
     rw [← denot_length, ← denot_length, hd]
   rw [this]
@@ -212,16 +178,16 @@ def bash_equiv_statement : Prop :=
 
 /-- The equivalence holds for the text of every well-formed brace expression tree (`canon`: nested
     list groups with at least two alternatives, `{x..y[..z]}` sequences that pass the validity
-    test, literals of bytes other than `{ } , . \ $`) provided no sequence overflows Int64 in the
-    Go loop (`noOv`; finding C16-seq-int64-overflow otherwise). -/
-theorem bash_equiv_partial (t : Word) (hc : canon t = true) (hno : noOv t = true) :
+    test — with any Int64 endpoints and increment —, literals of bytes other than
+    `{ } , . \ $`). -/
+theorem bash_equiv_partial (t : Word) (hc : canon t = true) :
     (isLimitErr (expand (splitBraces (render t)).1) = true ↔ bashCount (render t) > limit) ∧
     (bashCount (render t) ≤ limit →
       expand (splitBraces (render t)).1 = .ok (bashBraces (render t))) := by
   have hb := bash_canon_denot t hc
   have hcount : bashCount (render t) = count t := by
     rw [bashCount_eq, hb, denot_length]
-  rw [expand_canon t hc hno, hcount, hb]
+  rw [expand_canon t hc, hcount, hb]
   constructor
   · split <;> simp_all [isLimitErr]
   · intro hle
@@ -231,7 +197,7 @@ theorem bash_equiv_partial (t : Word) (hc : canon t = true) (hno : noOv t = true
 example :
     let t : Word := [.lit [97], .brace false [[.lit [98]], [.lit [99], .brace true [[.lit [49]], [.lit [51]]]]],
       .lit [100], .brace false [[.lit [120]], []]]
-    canon t = true ∧ noOv t = true ∧
+    canon t = true ∧
       render t = [97, 123, 98, 44, 99, 123, 49, 46, 46, 51, 125, 125, 100, 123, 120, 44, 125] := by
   decide
 
@@ -254,10 +220,5 @@ theorem bash_equiv_counterexample_nested :
     bashBraces [123, 97, 46, 46, 123, 98, 44, 99, 125, 125] =
       [[97, 46, 46, 98], [97, 46, 46, 99]] := by
   constructor <;> rfl
-
-/-- The overflow witness: bash's list has 2 elements, the expansion is the limit error. -/
-theorem bash_equiv_counterexample_overflow :
-    bashCount overflowWitness = 2 ∧ isLimitErr (expand (splitBraces overflowWitness).1) = true :=
-  ⟨by rfl, overflow_witness_limit⟩
 
 end ShVerif.C16
